@@ -16,8 +16,9 @@ func runRender(c Case) interface{} {
 		for i, sd := range asList(c["siblings"]) {
 			files[[]string{"a", "u", "m", "z0"}[i%4]+fmt.Sprint(i)] = pugDoc(asList(sd))
 		}
-		p := renderAmong(files, c["data"], false, nil)
-		d := renderAmong(files, c["data"], true, nil)
+		manifest, _ := c["manifest"].(string)
+		p := renderAmongM(files, c["data"], false, nil, manifest)
+		d := renderAmongM(files, c["data"], true, nil, manifest)
 		return J{"prod": J{"class": p.Class, "out": p.Out, "msg": p.Msg}, "debug": J{"class": d.Class, "out": d.Out, "msg": d.Msg}}
 	}
 	if sub, ok := c["subst"].(map[string]interface{}); ok {
